@@ -181,7 +181,12 @@ fn random_edit(h: &mut Hist, rng: &mut Rng) -> &'static str {
             let mut comps = rel_path(rng, 2);
             let name = *rng.pick(FILES);
             comps.push(name);
-            let content = if name == "big" { format!("c{:02}{}", rng.below(4), "x".repeat(27)) } else { format!("c{:02}", rng.below(6)) };
+            // "big": 20, 21 or 30 bytes (max_new_file_size is 20 in a quarter of the histories)
+            let content = if name == "big" {
+                format!("c{:02}{}", rng.below(4), "x".repeat(*rng.pick(&[17usize, 18, 27])))
+            } else {
+                format!("c{:02}", rng.below(6))
+            };
             h.write_file(&comps, content.as_bytes(), rng.chance(1, 6));
             "write"
         }
